@@ -1,4 +1,11 @@
-"""C01 - a transfer that reports success delivers an identical tree (see transfer_common)."""
+"""C01 - a transfer that reports success delivers an identical tree (see transfer_common).
+
+Besides the configuration grid: the hook traces of all grid transfers are validated with TLC
+against SessionTrace.tla, and driver xfer-special covers two input regions the grid does not
+reach - output directories that already hold stale files of other lengths at the same paths, and
+single sparse files beyond 4 GiB at the default and at a 1 MiB chunk size (the destination holds the
+low chunks, marked complete with the real Sidecar API, so only the chunks around the 2^32 byte
+mark travel; sampled regions and the length are compared)."""
 import vlib
 import transfer_common as tc
 import e2e_common
@@ -18,10 +25,17 @@ def run(tier, seed):
     if other:
         v.notes.append("runs that did not end in success on both sides are judged by C03, not here: %s" % str(other[:3])[:400])
     e2e_common.report_rules(v, PROP, res['trace_rules'])
+    # two input regions outside the grid: a non-empty output directory (stale longer / shorter files at the
+    # same paths) and single files beyond 4 GiB (sparse, only the chunks around the 2^32 byte mark travel)
+    sp = vlib.run_vh_sharded(['xfer-special', '-seed', str(seed)], 8, timeout=1800)
+    for viol in sp['violations']:
+        if viol['sig'].get('property') == 'C01':
+            v.violation(viol['sig'], viol.get('replay'))
     v.coverage = dict(states=mc['states'], transitions=mc['transitions'], traces_validated_against_impl=res['behaviours'],
                       samples=res['samples'][:6], hook_traces_validated_by_tlc=res['trace_stats'], transfers_not_traced=res['extra'].get('transfers_not_traced'), tlc=dict(runs=mc['runs'], invariant="Fidelity: sres=ok /\\ rres=ok => every chunk of every file written correctly"),
                       grid=dict(rows_in_grid=res['grid_rows'], runs=res['behaviours'], multi_file_runs=res['distinct'], outcomes=res['extra'].get('outcomes'),
-                                skipped_over_budget=res['extra'].get('skipped_over_budget')))
+                                skipped_over_budget=res['extra'].get('skipped_over_budget')),
+                      special_inputs=dict(runs=sp['behaviours'], outcomes=sp['extra'].get('outcomes')))
     v.assumptions = ["file contents are seeded random bytes; trees come from 13 shape classes scaled to the chunk size",
                      "transports: vnet (mock visibility), vnet (QUIC visibility, seeded arrival order), real loopback QUIC; 1..3 connections",
                      "the oracle compares relative paths, types, sizes and sha256 of everything under the output directory except .thruflux_resumedata"]
